@@ -2,9 +2,12 @@
 package sim
 
 import (
+	"encoding/json"
 	"fmt"
 	"os"
 	"os/signal"
+	"strconv"
+	"strings"
 	"syscall"
 	"testing"
 	"time"
@@ -36,4 +39,249 @@ func TestSmoke(t *testing.T) {
 			fmt.Printf("  c%d #%d %v -> %s [%d,%d]\n", op.Client, op.Idx, strs(op.Item.Args), op.Reply.String(), op.Invoke, op.Return)
 		}
 	}
+}
+
+func TestSeqProbe(t *testing.T) {
+	prop := os.Getenv("PROP")
+	if prop == "" {
+		prop = "C02"
+	}
+	n := 200
+	fps := map[string]int{}
+	first := map[string]string{}
+	t0 := time.Now()
+	for seed := uint64(1); seed <= uint64(n); seed++ {
+		plan := genSeqPlan(prop, seed, false)
+		res := RunPlan(t, plan, newTape(seed), newSeqChecker, false)
+		if res.Viol != nil {
+			fps[res.Viol.Fp]++
+			if _, ok := first[res.Viol.Fp]; !ok {
+				first[res.Viol.Fp] = fmt.Sprintf("seed %d: %s", seed, res.Viol.Msg)
+			}
+		} else if res.Stats.EndReason != "done" {
+			fps["END:"+res.Stats.EndReason]++
+		}
+	}
+	fmt.Printf("%d runs in %v\n", n, time.Since(t0))
+	for fp, c := range fps {
+		fmt.Printf("%4d %s\n      %s\n", c, fp, first[fp])
+	}
+}
+
+// TestAdhoc runs a ';'-separated command script (CMDS) on one connection and
+// prints replies next to the model's expectation.
+func TestAdhoc(t *testing.T) {
+	script := os.Getenv("CMDS")
+	if script == "" {
+		t.Skip()
+	}
+	plan := &Plan{Prop: "adhoc", Knobs: Knobs{Turns: true, Sticky: 100}}
+	var items []Item
+	for _, c := range splitScript(script) {
+		if len(c) == 2 && c[0] == "@adv" {
+			d, _ := time.ParseDuration(c[1])
+			items = append(items, Item{Op: "adv", N: int64(d)})
+			continue
+		}
+		items = append(items, cmdItem(c...))
+	}
+	plan.Clients = []Client{{Items: items}}
+	m := NewModel()
+	s := NewSess()
+	res := RunPlan(t, plan, replayTape(nil), func(*Plan) Checker { return nil }, false)
+	for _, op := range res.History {
+		exp := m.Apply(s, simEpochNs, strs(op.Item.Args))
+		mark := "  "
+		if err := exp.Match(op.Reply); err != nil {
+			mark = "!!"
+		} else if exp.Resolve != nil {
+			exp.Resolve(op.Reply)
+		}
+		fmt.Printf("%s %-50s -> %-40s model: %s\n", mark, fmtArgs(strs(op.Item.Args)), clipS(op.Reply.String(), 80), clipS(exp.String(), 80))
+	}
+	if res.Viol != nil {
+		fmt.Println("VIOLATION:", res.Viol)
+	}
+}
+
+func splitScript(s string) [][]string {
+	var out [][]string
+	for _, line := range strings.Split(s, ";") {
+		f := strings.Fields(line)
+		if len(f) == 0 {
+			continue
+		}
+		for i := range f {
+			if f[i] == `""` {
+				f[i] = ""
+			}
+			if u, err := strconv.Unquote(f[i]); err == nil && strings.HasPrefix(f[i], `"`) {
+				f[i] = u
+			}
+		}
+		out = append(out, f)
+	}
+	return out
+}
+
+func TestSeqOne(t *testing.T) {
+	prop := os.Getenv("PROP")
+	seed, _ := strconv.ParseUint(os.Getenv("SEED"), 10, 64)
+	if seed == 0 {
+		t.Skip()
+	}
+	plan := genSeqPlan(prop, seed, os.Getenv("THOROUGH") != "")
+	res := RunPlan(t, plan, newTape(seed), newSeqChecker, false)
+	n := len(res.History)
+	from := 0
+	if n > 25 {
+		from = n - 25
+	}
+	for _, op := range res.History[from:] {
+		fmt.Printf("  #%d %s -> %s\n", op.Idx, fmtArgs(strs(op.Item.Args)), clipS(op.Reply.String(), 150))
+	}
+	fmt.Println("END:", res.Stats.EndReason, "VIOL:", res.Viol)
+}
+
+// TestWorker is the entry point the driver (bin/check) uses. Configuration
+// comes from VS_* environment variables; results go to VS_OUT as JSON lines.
+func TestWorker(t *testing.T) {
+	mode := os.Getenv("VS_MODE")
+	if mode == "" {
+		t.Skip()
+	}
+	pd := props[os.Getenv("VS_PROP")]
+	out := os.Stdout
+	if p := os.Getenv("VS_OUT"); p != "" {
+		f, err := os.OpenFile(p, os.O_CREATE|os.O_WRONLY|os.O_APPEND, 0o644)
+		if err != nil {
+			t.Fatal(err)
+		}
+		defer f.Close()
+		out = f
+	}
+	emit := func(v any) {
+		b, _ := json.Marshal(v)
+		out.Write(append(b, '\n'))
+	}
+	switch mode {
+	case "info":
+		if pd == nil {
+			t.Fatalf("unknown property %q", os.Getenv("VS_PROP"))
+		}
+		emit(propInfoJSON(pd))
+	case "sentinel":
+		var script [][]string
+		if err := json.Unmarshal([]byte(os.Getenv("VS_SCRIPT")), &script); err != nil {
+			t.Fatal(err)
+		}
+		plan := &Plan{Prop: pd.id, Class: "sentinel", Knobs: Knobs{Turns: true, Dump: true, Sticky: 100}}
+		var items []Item
+		for _, c := range script {
+			if len(c) == 2 && c[0] == "@adv" {
+				d, _ := time.ParseDuration(c[1])
+				items = append(items, Item{Op: "adv", N: int64(d)})
+				continue
+			}
+			items = append(items, cmdItem(c...))
+		}
+		plan.Clients = []Client{{Items: items}}
+		res := RunPlan(t, plan, replayTape(nil), newSeqChecker, false)
+		emit(map[string]any{"sentinel": true, "viol": res.Viol})
+	case "run":
+		if pd == nil {
+			t.Fatalf("unknown property %q", os.Getenv("VS_PROP"))
+		}
+		from, _ := strconv.ParseUint(os.Getenv("VS_FROM"), 10, 64)
+		n, _ := strconv.Atoi(os.Getenv("VS_N"))
+		thorough := os.Getenv("VS_TIER") == "thorough"
+		rdir := os.Getenv("VS_REPLAY_DIR")
+		deadline := time.Time{}
+		if s, _ := strconv.Atoi(os.Getenv("VS_SECONDS")); s > 0 {
+			deadline = time.Now().Add(time.Duration(s) * time.Second)
+		}
+		nviol := 0
+		for i := 0; i < n; i++ {
+			if !deadline.IsZero() && time.Now().After(deadline) {
+				break
+			}
+			seed := from + uint64(i)
+			emit(map[string]any{"begin": seed})
+			plan := pd.gen(seed, thorough)
+			res := RunPlan(t, plan, newTape(seed), pd.chk, false)
+			rec := RunRecord{Seed: seed, Class: plan.Class, End: res.Stats.EndReason, Steps: res.Stats.Steps, TaskSteps: res.Stats.TaskSteps,
+				SimTimeNs: int64(res.Stats.SimTime), Cmds: res.Stats.Cmds, Replies: res.Stats.Replies,
+				SchedFp: fmt.Sprintf("%016x", res.Stats.SchedFp), Faults: res.Stats.Faults, Probes: res.Stats.Probes, Extra: res.Extra}
+			rec.Nontrivial = res.Viol == nil && pd.nontrivial != nil && pd.nontrivial(res)
+			if res.Viol != nil {
+				rec.Viol = res.Viol
+				nviol++
+				if rdir != "" && nviol <= 20 {
+					path := fmt.Sprintf("%s/raw-%s-%d.json", rdir, pd.id, seed)
+					writeReplay(path, &ReplayFile{Property: pd.id, Seed: seed, Plan: plan, Tape: res.Tape, Viol: res.Viol})
+					rec.Replay = path
+				}
+			}
+			if i < 2 || (rec.Nontrivial && i%97 == 0) {
+				rec.Sample = sampleOf(res, 12)
+			}
+			emit(rec)
+		}
+		emit(map[string]any{"done": true})
+	case "replay":
+		rf, err := readReplay(os.Getenv("VS_REPLAY"))
+		if err != nil {
+			t.Fatal(err)
+		}
+		pd = props[rf.Property]
+		res := RunPlan(t, rf.Plan, replayTape(rf.Tape), pd.chk, true)
+		same := res.Viol != nil && rf.Viol != nil && res.Viol.Fp == rf.Viol.Fp
+		emit(map[string]any{"replayed": true, "same": same, "viol": res.Viol, "end": res.Stats.EndReason})
+		if os.Getenv("VS_VERBOSE") != "" {
+			for _, l := range res.Log {
+				fmt.Println(l)
+			}
+			for _, op := range res.History {
+				fmt.Printf("  c%d #%d [%d,%d] %s -> %s\n", op.Client, op.Idx, op.Invoke, op.Return, fmtArgs(strs(op.Item.Args)), clipS(op.Reply.String(), 200))
+			}
+			fmt.Println("violation:", res.Viol)
+		}
+	case "shrink":
+		rf, err := readReplay(os.Getenv("VS_REPLAY"))
+		if err != nil {
+			t.Fatal(err)
+		}
+		pd = props[rf.Property]
+		budget, _ := strconv.Atoi(os.Getenv("VS_BUDGET"))
+		if budget == 0 {
+			budget = 600
+		}
+		// first confirm it fails at all in this process
+		res := RunPlan(t, rf.Plan, replayTape(rf.Tape), pd.chk, false)
+		if res.Viol == nil || res.Viol.Fp != rf.Viol.Fp {
+			emit(map[string]any{"shrunk": false, "reason": "does not reproduce"})
+			return
+		}
+		best, runs := shrinkReplay(t, pd, rf, budget)
+		// final run with the event log kept, for the human-readable trace
+		fin := RunPlan(t, best.Plan, replayTape(best.Tape), pd.chk, true)
+		if fin.Viol != nil {
+			best.Viol = fin.Viol
+			best.Tape = fin.Tape
+			best.Events = fin.Log
+		}
+		path := os.Getenv("VS_SHRUNK")
+		if err := writeReplay(path, best); err != nil {
+			t.Fatal(err)
+		}
+		emit(map[string]any{"shrunk": true, "runs": runs, "path": path, "items": countItems(best.Plan), "tape": len(best.Tape)})
+	}
+}
+
+func countItems(p *Plan) int {
+	n := 0
+	for _, c := range p.Clients {
+		n += len(c.Items)
+	}
+	return n
 }
